@@ -37,7 +37,7 @@ P = {
  "C07": ("GT.Props.C07: C07_chain_rule (both branches of the Dx>Dy log-determinant computation, every batch regime by the layout "
          "k ↦ (k/Rx, k%Rx)), C07_joint_params, C07_joint_inv, identity-mean class C07_chain_rule_id.", "§5 C07"),
  "C08": ("GT.Props.C08: C08_marginal_evalLn, C08_is_marginal_of_joint (as objects), identity class.", "§5 C08"),
- "C09": ("GT.Props.C09: C09_posterior_params, C09_bayes(_model): p(x|y)p(y)=p(y|x)p(x) pointwise, C09_round_trip(_model).", "§5 C09"),
+ "C09": ("GT.Props.C09: C09_posterior_params, C09_bayes(_model): p(x|y)p(y)=p(y|x)p(x) pointwise, C09_round_trip(_model). GT.Props.C09Id: the same for the identity-mean classes (C09Id_posterior_params, C09Id_bayes(_model), C09Id_round_trip(_model)), both full and diagonal, all batch regimes.", "§5 C09"),
  "C10": ("GT.Props.C10: C10_set_y_offset proves for ALL inputs that set_y(y)(x) = cond(x)(y) + (Dy−Dx)/2·log 2π — the pinned code's exact "
          "behaviour (known finding set_y-normaliser-uses-Dx); C10_set_y_partial (Dx=Dy: the property), C10_counterexample (negation of the "
          "full statement). The check reports KNOWN-FINDING for deviations matching exactly that offset and VIOLATION for any other.", "§5 C10"),
@@ -46,9 +46,9 @@ P = {
          "finding), C11_evidence_partial (Dx=Dy). Workflows incl. Kalman filtering are run against a dense NumPy joint.", "§5 C11"),
  "C12": ("GT.Props.C12: naturality of every modelled operation in the batch index: productSel_reindex_out/in, C12_multiply_slice "
          "(layout i*R2+j), C12_hadamard*_slice, mkPdf_reindex, C12_condition_on_x (r*N+n), C12_affine_joint/marginal/conditional, "
-         "C12_set_y_*, slices with repeated / wrapped negative indices (takeIdx), C12_kl, C12_entropy, ….", "§5 C12"),
+         "C12_set_y_*, slices with repeated / wrapped negative indices (takeIdx), C12_kl, C12_entropy, …. GT.Props.C12Ext: the 12 polynomial integrals (per-component coefficients included), integrate_log_factor / _log_conditional / _log_conditional_y, update (untouched / addressed components), condition_on(_explicit), conditional entropy and mutual information with a batch on either side, and the feature / heteroscedastic transformations in the batch of p(x) (C12_feat_*, C12_hetero_*).", "§5 C12"),
  "C13": ("GT.Props.C13: C13_kl_eq (= GT.Math.klGauss), C13_kl_nonneg, C13_kl_eq_zero_iff (all broadcast patterns), entropy formula, "
-         "C13_conditional_entropy, C13_mutual_information, C13_mi_nonneg, C13_mi_zero_of_M_zero, C13_mi_add_conditional_entropy.", "§5 C13"),
+         "C13_conditional_entropy, C13_mutual_information, C13_mi_nonneg, C13_mi_zero_of_M_zero, C13_mi_add_conditional_entropy. GT.Props.C13Id: conditional entropy and mutual information of the identity-mean classes (C13Id_*), and symmetry of I under the conditional transformation for both families and all batch regimes (C13_mi_symm, C13Id_mi_symm).", "§5 C13"),
  "C14": ("GT.Props.C14: C14_log_factor (all four factor classes, batch 1 or R), C14_log_conditional, C14_log_conditional_y as Lebesgue "
          "integrals (mass-one hypothesis explicit, offset versions without it). GT.Props.C14Feature: the feature-model clause — C14F_log_conditional_y, "
          "C14F_log_conditional (px = None), _px (px the x-marginal), _px_offset (exact value for any other px), _px_marginal, _iterated, for both "
